@@ -41,7 +41,11 @@ TRUSTED = [
 
 def validate_nfkc_bold(chk):
     import keyword
-    x = valid_keywords.extract(vlib.REPO)
+    try:
+        x = valid_keywords.extract(vlib.REPO)
+    except Exception as e:       # the tie is broken: still compare the real unparse with the last known constants
+        chk.notes.append("mincing constants not regenerated (%s); using the defaults" % type(e).__name__)
+        x = {"exclusions": ["True", "False", "None"], "from": 97, "to": 0x1D41A, "lists": True, "neg_types": ["int", "float"]}
     bad = []
     tails = sorted({k[1:] for k in keyword.kwlist} | {"", "_", "x1", "Z_9", "~!"})
     for c in "abcdefghijklmnopqrstuvwxyz":
